@@ -33,11 +33,23 @@ struct RegionData {
     std::sort(out.begin(), out.end());
     written.swap(out);
   }
-  // first never-written byte in [a,b), or -1
-  int64_t firstUnwritten(i128 a, i128 b) const {
+  // fills of symbolic length: bytes [lo, lo + root + k) were written, root being an interval root of the state; how many
+  // bytes that is for certain is decided when a read is checked (the root may have been refined since)
+  std::vector<std::tuple<int64_t, int, int64_t>> writtenLinked;
+  void addWrittenLinked(i128 lo, int root, i128 k) {
+    if (!trackInit || root < 0) return;
+    auto t = std::make_tuple((int64_t)lo, root, (int64_t)k);
+    for (auto &x : writtenLinked) if (x == t) return;
+    if (writtenLinked.size() < 16) writtenLinked.push_back(t);
+  }
+  // first never-written byte in [a,b), or -1; `extra` holds the certainly written part of the linked fills
+  int64_t firstUnwritten(i128 a, i128 b, const std::vector<std::pair<int64_t, int64_t>> *extra = nullptr) const {
     if (!trackInit) return -1;
     int64_t pos = (int64_t)a;
-    for (auto &w : written) {
+    std::vector<std::pair<int64_t, int64_t>> all;
+    const std::vector<std::pair<int64_t, int64_t>> *use = &written;
+    if (extra && !extra->empty()) { all = written; all.insert(all.end(), extra->begin(), extra->end()); std::sort(all.begin(), all.end()); use = &all; }
+    for (auto &w : *use) {
       if (w.second <= pos) continue;
       if (w.first > pos) break;
       pos = w.second;
@@ -46,8 +58,8 @@ struct RegionData {
     return pos < b ? pos : -1;
   }
   std::vector<std::pair<int64_t, int64_t>> nuls;   // each: a 0 byte was stored at one offset in [lo,hi] and not overwritten since
-  void noteWrite(i128 a, i128 b, bool isNul) {          // write of [a,b)
-    addWritten(a, b);
+  void noteWrite(i128 a, i128 b, bool isNul, bool mark = true) {          // write of [a,b); mark: counts as initialising
+    if (mark) addWritten(a, b);
     // any write invalidates terminators it may overwrite
     for (size_t i = 0; i < nuls.size();) { if (a <= nuls[i].second && b > nuls[i].first) nuls.erase(nuls.begin() + (long)i); else i++; }
     if (isNul && b - a >= 1) {
